@@ -69,7 +69,10 @@ Definition ores_same (a b : option (res pyval)) : bool :=
   | _, _ => false
   end.
 
-Definition hastate_same (a b : hastate) : bool := N.eqb (fst a) (fst b) && attrs_same (snd a) (snd b).
+(* value, attributes and the three time stamps (as indices of the writing steps) *)
+Definition hastate_same (a b : hastate) : bool :=
+  N.eqb (hs_val a) (hs_val b) && attrs_same (hs_attrs a) (hs_attrs b)
+  && N.eqb (hs_lc a) (hs_lc b) && N.eqb (hs_lu a) (hs_lu b) && N.eqb (hs_lr a) (hs_lr b).
 Definition hamap_same (a b : hamap) : bool :=
   Nat.eqb (length a) (length b)
   && forallb (fun p : ename * hastate => match ha_get b (fst p) with Some s => hastate_same (snd p) s | None => false end) a
@@ -99,23 +102,24 @@ Section Walk.
   Definition cfg_of (d : deviations) : config :=
     {| cf_dev := d; cf_host := H; cf_funcs := state_function_names; cf_svcargs := sc_svcargs c |}.
 
-  Definition model_out (d : deviations) (st : mstate) (s : step) := model_step (cfg_of d) st s.
-  Definition spec_out (st : mstate) (s : step) := spec_step H state_function_names (sc_svcargs c) st s.
+  Definition model_out (d : deviations) (now : N) (st : mstate) (s : step) := model_step (cfg_of d) now st s.
+  Definition spec_out (now : N) (st : mstate) (s : step) := spec_step H state_function_names (sc_svcargs c) now st s.
 
   (* indices of the steps on which [f pre step obs] is false *)
-  Fixpoint bad_steps (f : mstate -> step -> obs -> bool) (i : nat) (st : mstate) (l : list (step * obs)) : list nat :=
+  (* step number i (0-based) runs at logical time i+1: the harness sets Home Assistant's wall clock accordingly *)
+  Fixpoint bad_steps (f : N -> mstate -> step -> obs -> bool) (i : nat) (now : N) (st : mstate) (l : list (step * obs)) : list nat :=
     match l with
     | [] => []
     | (s, o) :: r =>
-        let rest := bad_steps f (S i) (o_state o) r in
-        if f st s o then rest else i :: rest
+        let rest := bad_steps f (S i) (N.succ now) (o_state o) r in
+        if f now st s o then rest else i :: rest
     end.
 
-  Definition step_model_ok (st : mstate) (s : step) (o : obs) : bool := out_same (model_out dv st s) o.
-  Definition step_spec_ok (st : mstate) (s : step) (o : obs) : bool := out_same (spec_out st s) o.
+  Definition step_model_ok (now : N) (st : mstate) (s : step) (o : obs) : bool := out_same (model_out dv now st s) o.
+  Definition step_spec_ok (now : N) (st : mstate) (s : step) (o : obs) : bool := out_same (spec_out now st s) o.
 
-  Definition model_bad : list nat := bad_steps step_model_ok 0 (sc_init c) (sc_steps c).
-  Definition spec_bad : list nat := bad_steps step_spec_ok 0 (sc_init c) (sc_steps c).
+  Definition model_bad : list nat := bad_steps step_model_ok 0 1%N (sc_init c) (sc_steps c).
+  Definition spec_bad : list nat := bad_steps step_spec_ok 0 1%N (sc_init c) (sc_steps c).
 
   (* which single finding explains a step that fails the Spec: the Model with only that switch on reproduces the
      observation, and with that switch off (all others as measured) it agrees with the Spec *)
@@ -127,18 +131,18 @@ Section Walk.
        d_del_ignores_pyvar := d_del_ignores_pyvar dv && negb (Nat.eqb k 7) |}.
   Definition outs_same (a b : option (res pyval) * mstate) : bool :=
     ores_same (fst a) (fst b) && mstate_same (snd a) (snd b).
-  Definition explains (k : nat) (st : mstate) (s : step) (o : obs) : bool :=
-    out_same (model_out (only k) st s) o && outs_same (model_out (without k) st s) (spec_out st s).
+  Definition explains (k : nat) (now : N) (st : mstate) (s : step) (o : obs) : bool :=
+    out_same (model_out (only k) now st s) o && outs_same (model_out (without k) now st s) (spec_out now st s).
 
-  Fixpoint attrib_steps (st : mstate) (l : list (step * obs)) : option (list nat) :=
+  Fixpoint attrib_steps (now : N) (st : mstate) (l : list (step * obs)) : option (list nat) :=
     match l with
     | [] => Some []
     | (s, o) :: r =>
-        match attrib_steps (o_state o) r with
+        match attrib_steps (N.succ now) (o_state o) r with
         | None => None
         | Some ks =>
-            if step_spec_ok st s o then Some ks
-            else match filter (fun k => explains k st s o) [160; 161; 7]%nat with
+            if step_spec_ok now st s o then Some ks
+            else match filter (fun k => explains k now st s o) [160; 161; 7]%nat with
                  | [] => None
                  | k :: _ => Some (if existsb (Nat.eqb k) ks then ks else k :: ks)
                  end
@@ -152,7 +156,7 @@ Definition scase_spec_ok (H : host) (c : scase) : bool :=
   match spec_bad H c with [] => true | _ => false end.
 (* finding numbers explaining ALL Spec failures of the case; [] if some failing step is not explained *)
 Definition scase_attrib (H : host) (dv : deviations) (c : scase) : list nat :=
-  match attrib_steps H dv c (sc_init c) (sc_steps c) with Some ks => ks | None => [] end.
+  match attrib_steps H dv c 1%N (sc_init c) (sc_steps c) with Some ks => ks | None => [] end.
 
 (* for replays: failing step indices and what Model / Spec produce on the first failing step *)
 Definition first_out (H : host) (dv : deviations) (c : scase) (i : nat) :=
@@ -161,7 +165,7 @@ Definition first_out (H : host) (dv : deviations) (c : scase) (i : nat) :=
              | S j => match nth_error (sc_steps c) j with Some (_, o) => o_state o | None => sc_init c end
              end in
   match nth_error (sc_steps c) i with
-  | Some (s, o) => Some (s, model_out H c dv pre s, spec_out H c pre s, o)
+  | Some (s, o) => Some (s, model_out H c dv (N.of_nat (S i)) pre s, spec_out H c (N.of_nat (S i)) pre s, o)
   | None => None
   end.
 Definition scase_explain (H : host) (dv : deviations) (c : scase) :=
